@@ -540,6 +540,15 @@ def _visit(c, hist, V, cnt, fmt_orders):
             keys = (_state_key(fr), _class_key(fr), (fr.tchans, fr.fchans))
         for fmt in order:
             _save_and_check(fr, fmt, V, cnt)
+    # the node edited IN PLACE and then saved: the file holds the pixels the frame has at the time of saving, whatever views
+    # of its data were handed out or wrapped earlier in the history (seeded change C03-31: an identity memo of the wrapped
+    # array that a copy inherits, so the copy saves the snapshot taken before the edit)
+    fr = _replay(c, hist, V)
+    if fr is not None:
+        fr.data *= 0.5
+        fr.data += 3.0
+        for fmt in (('fil',) if c['tier'] == 'quick' else ('fil', 'h5')):
+            _save_and_check(fr, fmt, V, cnt)
     fr = _replay(c, hist, V)
     if fr is not None:
         _check_insession(fr, V, cnt)
